@@ -252,7 +252,10 @@ class RunGeneration(Unit):
 
     def configs(self):
         for rec, rsn, rs in ((False, "-", aw_rs(False)), (True, "all", aw_rs(True)), (True, "none", aw_rs(False)), (True, "mix", dict(rng=True, state=False, output=True, inputs=False, params=False))):
-            yield f"record={int(rec)}:{rsn}", dict(record=rec, rs=rs)
+            yield f"record={int(rec)}:{rsn}", dict(record=rec, rs=rs, timing="a_0")
+        # uniform supergraphs: jax.lax.scan calls the same function once per generation with the stacked timings of ALL slots of a kind under the key
+        # of the kind's first slot - i.e. key a_0 with the timing values (run mask, seq, ...) of a later slot
+        yield "uniform-scan: key of the first slot, timings of a later slot", dict(record=True, rs=aw_rs(True), timing="a_1")
 
     def run(self, ctx):
         ex, cfg = ctx.ex, ctx.cfg
@@ -263,7 +266,7 @@ class RunGeneration(Unit):
         if not ok:
             return
         run_gen = run_S.env_chain[0]["_run_generation"]
-        t = W.slots["a_0"]
+        t = W.slots[cfg["timing"]]
         seq, pred = t.f["seq"], t.f["run"]
         ctx.require(z3.And(0 <= seq, seq < W.rows))     # Graph.init_record sizes the record by the number of scheduled steps; masked slots carry seq 0
         ret = ex.call(run_gen, [W.gs, {"a_0": t}], {})
